@@ -145,7 +145,7 @@ func cmdCheck(w *World, cfg *RunCfg, prop, replay string, t0 time.Time) int {
 			results = append(results, r)
 		}
 	}
-	if prop == "C09" {
+	if prop == "C09" || prop == "C06" {
 		results = append(results, w.formatDelegation()...)
 	}
 	if prop == "C01" || prop == "C11" || prop == "C12" {
